@@ -143,8 +143,12 @@ _NOATTR = re.compile(r"has no attribute '([^']+)'")
 _NAMETOK = re.compile(r"\b[A-Za-z_][A-Za-z0-9_]*(?:\.[A-Za-z_][A-Za-z0-9_]*)?: ")
 
 
+_GOT = re.compile(r"Got [^;]*; ")
+
+
 def _strip_names(msg):
-    return _NAMETOK.sub("", msg)
+    """the text of a message without the `<name>: ` / `<name>: Got <v>; ` prefixes that render a field's `_name`"""
+    return _GOT.sub("", _NAMETOK.sub("", msg))
 
 
 def outcome_of(fn):
